@@ -420,10 +420,8 @@ LI = "psd.layer_and_mask_information.layer_info."
 _D = {
     1: lambda p, a, b: p in (LI + "layer_records", LI + "channel_image_data") and a.endswith("(len=0)") and b == "None",
     2: lambda p, a, b: p == "psd.layer_and_mask_information.tagged_blocks" and a == "None" and b == "TaggedBlocks(len=0)",
-    # a descriptor key / enum / class id that changed its length (the short key read at the end of the input comes back 4 bytes long)
-    64: lambda p, a, b: "].data" in p and a.startswith("bytes(len=") and b.startswith("bytes(len=") and a != b,
 }
-_FID = {1: "F-C02-1", 2: "F-C02-2", 16: "F-C02-5", 64: "F-C02-7"}      # F-C02-3 / F-C02-4 (f3a2729) and F-C02-6 (de58475) are fixed: they suppress nothing
+_FID = {1: "F-C02-1", 2: "F-C02-2", 16: "F-C02-5"}      # F-C02-3 / F-C02-4 (f3a2729), F-C02-6 (de58475), F-C02-7 (708c13e) are fixed: they suppress nothing
 
 
 def explain(kind, obs):
@@ -534,7 +532,6 @@ def _still(b, kind):
 core.KNOWN_WITNESS["F-C02-1"] = lambda: _still(W1, "resaved-not-equal")
 core.KNOWN_WITNESS["F-C02-2"] = lambda: _still(W2, "resaved-not-equal")
 core.KNOWN_WITNESS["F-C02-5"] = lambda: _still(W5, "resaved-unreadable")
-core.KNOWN_WITNESS["F-C02-7"] = lambda: _still(W7, "resaved-not-equal")
 
 
 def _work(item):
